@@ -142,6 +142,7 @@ class Ctx:
     def call(self, label, fn, *a, **kw):
         """in-domain call: an exception (incl. native panics, BaseException) is a violation"""
         self.counters["call:" + label] += 1
+        DEPTH.clear()
         try:
             return fn(*a, **kw)
         except (KeyboardInterrupt, SystemExit, ContractBroken):
@@ -165,6 +166,7 @@ class Ctx:
 
 
 CTX = None   # set by the shard
+DEPTH = collections.Counter()   # label -> current nesting depth of monitored calls (reset by Ctx.call)
 
 
 def set_ctx(ctx):
@@ -198,10 +200,15 @@ def _engine():
     return ENGINE
 
 
-def _decorate(fn, post, snap, label):
-    """returns fn wrapped with snapshot+ensure. post(pre, args, kwargs, result) -> bool"""
+def _decorate(fn, post, snap, label, top_only=False):
+    """returns fn wrapped with snapshot+ensure. post(pre, args, kwargs, result) -> bool.
+    top_only: calls nested inside another call of the same function (the library's own recursion) are
+    counted but not judged."""
     def capture(_ARGS, _KWARGS):
-        if _busy or CTX is None or snap is None:
+        if _busy or CTX is None:
+            return None
+        DEPTH[label] += 1
+        if snap is None or (top_only and DEPTH[label] > 1):
             return None
         with guard():
             try:
@@ -215,6 +222,11 @@ def _decorate(fn, post, snap, label):
 
     def holds(_ARGS, _KWARGS, result, OLD):
         if _busy or CTX is None:
+            return True
+        d = DEPTH[label]
+        DEPTH[label] = max(0, d - 1)
+        if top_only and d > 1:
+            CTX.count("nested:" + label)
             return True
         CTX.count("contract:" + label)
         with guard():
@@ -248,7 +260,7 @@ def _decorate(fn, post, snap, label):
     return wrapper
 
 
-def attach(owner, name, post, snap=None, label=None):
+def attach(owner, name, post, snap=None, label=None, top_only=False):
     """decorate owner.__dict__[name] in place; returns True when attached"""
     label = label or f"{getattr(owner, '__name__', owner)}.{name}"
     raw = owner.__dict__.get(name) if hasattr(owner, "__dict__") else None
@@ -260,13 +272,13 @@ def attach(owner, name, post, snap=None, label=None):
             return False
     _ATTACHED.append((owner, name, raw))
     if isinstance(raw, staticmethod):
-        new = staticmethod(_decorate(raw.__func__, post, snap, label))
+        new = staticmethod(_decorate(raw.__func__, post, snap, label, top_only))
     elif isinstance(raw, classmethod):
-        new = classmethod(_decorate(raw.__func__, post, snap, label))
+        new = classmethod(_decorate(raw.__func__, post, snap, label, top_only))
     elif isinstance(raw, property):
-        new = property(_decorate(raw.fget, post, snap, label), raw.fset, raw.fdel, raw.__doc__)
+        new = property(_decorate(raw.fget, post, snap, label, top_only), raw.fset, raw.fdel, raw.__doc__)
     else:
-        new = _decorate(raw, post, snap, label)
+        new = _decorate(raw, post, snap, label, top_only)
     setattr(owner, name, new)
     return True
 
